@@ -79,6 +79,19 @@ CHECKS = {
          "budget and faults in compute/write/index/telemetry; per-turn twin with reflection off from the same deep-copied pre-state; other-wall-clock twin for ids/timestamps.",
     note="Stage caches are off so the in-process twin cannot be served from the main run's cache; LLM completions are served by the real fixture adapter.",
     technique="deterministic simulation: simulated wall budget + fault sites + per-turn differential twin"),
+ "C06": dict(level="exploration", ref="4/C06",
+    text="Write/load/write-again chains on a scratch snapshot directory with generated states (weights maps; GEL graphs in dict and list form, "
+         "both orientations, unicode/dotted ids, non-finite and out-of-range weights), writes killed at every I/O step (power-loss states fed to "
+         "snapshot discovery), failing sidecar writes and clock rewinds between agents; each load is compared with the write that produced the "
+         "chosen file and written again byte for byte.",
+    note="Sanitisation corner cases are sampled; 'latest' follows the simulated mtimes.",
+    technique="deterministic simulation: crash/fault-injected write-load-write chains on an interposed disk with simulated mtimes"),
+ "C07": dict(level="exploration", ref="4/C07",
+    text="Snapshot-shaped payload pairs with adversarial keys go through the codec law and through the real delta writer/reader on a scratch "
+         "disk whose baseline is left intact, never written, removed, truncated, garbled or lost by a kill during its write; reads by path, by "
+         "etag and through load_latest_snapshot must return the payload, the full sibling, {} / not-loaded, or raise - never another dict.",
+    note="Codec 'none' only (no zstandard); the codec law itself is input-quantified and evaluated on the generated pairs.",
+    technique="deterministic simulation: baseline fault sequences (kill during write, removal, truncation, garbling) around the real writer/reader"),
 }
 
 NA = {
